@@ -66,5 +66,244 @@ H_FLOAT(nonfinite, !__CPROVER_isfinited(v))
 H_FLOAT(int, FL_INT(v))
 H_FLOAT(single, __CPROVER_isfinited(v) && FL_SINGLE(v))
 H_FLOAT(double, FL_DOUBLE(v))
+/* DESIGN section 6, F5: every double -> int64_t conversion in write_float must be defined C (checked with --conversion-check;
+ * ghost content clauses off, so only the library's own conversions are examined) */
+void h_write_float_conversion(void) { struct aws_cbor_encoder *encoder; double v; C10_RESET();
+    /* CBMC's check compares against the lower bound -2^63 - 1 rounded to double (= -2^63) and so flags -2^63 itself,
+     * which IS representable; that one value is left to the functional units */
+    __CPROVER_assume(v != -TWO63);
+    aws_cbor_encoder_write_float(encoder, v); CANARY("returned"); }
 H_ENC1(write_bytes, struct aws_byte_cursor)
 H_ENC1(write_text, struct aws_byte_cursor)
+
+/* ------------------------------------------------------------------ decoder */
+/* DFCC starts every mutable static as NONDET, and the callback table of cbor.c is a non-const static: the DFCC
+ * harnesses set it to the values below; the plain (non-DFCC) unit callbacks_table proves that these ARE the values of
+ * the real static initialiser, and no function under contract lists s_callbacks in its assigns clause. */
+static void c10_callbacks_init(void) {
+    s_callbacks.uint8 = s_uint8_callback; s_callbacks.uint16 = s_uint16_callback; s_callbacks.uint32 = s_uint32_callback;
+    s_callbacks.uint64 = s_unsigned_int_val_callback;
+    s_callbacks.negint8 = s_negint8_callback; s_callbacks.negint16 = s_negint16_callback; s_callbacks.negint32 = s_negint32_callback;
+    s_callbacks.negint64 = s_negative_int_val_callback;
+    s_callbacks.byte_string_start = s_inf_bytes_callback; s_callbacks.byte_string = s_bytes_callback;
+    s_callbacks.string = s_str_callback; s_callbacks.string_start = s_inf_str_callback;
+    s_callbacks.indef_array_start = s_inf_array_callback; s_callbacks.array_start = s_array_start_callback;
+    s_callbacks.indef_map_start = s_inf_map_callback; s_callbacks.map_start = s_map_start_callback;
+    s_callbacks.tag = s_tag_val_callback;
+    s_callbacks.float2 = s_float_callback; s_callbacks.float4 = s_float_callback; s_callbacks.float8 = s_float_val_callback;
+    s_callbacks.undefined = s_undefined_callback; s_callbacks.null = s_null_callback; s_callbacks.boolean = s_boolean_val_callback;
+    s_callbacks.indef_break = s_inf_break_callback;
+}
+void h_callbacks_table(void) {
+    struct cbor_callbacks real = s_callbacks; /* plain unit: the static initialiser of cbor.c is in force */
+    c10_callbacks_init();
+    __CPROVER_assert(memcmp(&real, &s_callbacks, sizeof(real)) == 0, "callback table of cbor.c equals the table the DFCC harnesses install");
+    __CPROVER_assert(real.uint8 == s_uint8_callback && real.negint64 == s_negative_int_val_callback && real.float4 == s_float_callback &&
+                     real.byte_string == s_bytes_callback && real.string == s_str_callback && real.indef_break == s_inf_break_callback, "spot check of the table");
+    CANARY("reached");
+}
+void h_decode_next_element(void) {
+    struct aws_cbor_decoder *decoder;
+    C10_RESET(); c10_callbacks_init();
+    int r = s_cbor_decode_next_element(decoder);
+    if (r == 0) CANARY("decoded"); else CANARY("rejected");
+}
+
+#define H_POP(name, T) void h_pop_##name(void) { struct aws_cbor_decoder *decoder; T *out; C10_RESET(); \
+    int r = aws_cbor_decoder_pop_next_##name(decoder, out); if (r == 0) CANARY("popped"); else CANARY("refused"); }
+H_POP(unsigned_int_val, uint64_t)
+H_POP(negative_int_val, uint64_t)
+H_POP(tag_val, uint64_t)
+H_POP(array_start, uint64_t)
+H_POP(map_start, uint64_t)
+H_POP(boolean_val, bool)
+H_POP(float_val, double)
+H_POP(bytes_val, struct aws_byte_cursor)
+H_POP(text_val, struct aws_byte_cursor)
+void h_peek_type(void) { struct aws_cbor_decoder *decoder; enum aws_cbor_type *t; C10_RESET();
+    int r = aws_cbor_decoder_peek_type(decoder, t); if (r == 0) CANARY("peeked"); else CANARY("refused"); }
+void h_consume_single(void) { struct aws_cbor_decoder *decoder; C10_RESET();
+    int r = aws_cbor_decoder_consume_next_single_element(decoder); if (r == 0) CANARY("skipped"); else CANARY("refused"); }
+void h_remaining(void) { struct aws_cbor_decoder *decoder; C10_RESET();
+    size_t r = aws_cbor_decoder_get_remaining_length(decoder); if (r) CANARY("some left"); else CANARY("nothing left"); }
+
+/* ------------------------------------------------------------------ lemma units: writer-side spec o reader-side spec = id
+ * (pure specification level, no library code: what the encoder contracts promise is exactly what the decoder
+ * contracts read back) */
+static enum aws_cbor_type c10_type_of_base(uint8_t b0base) {
+    return b0base == CBOR_MT_UINT ? AWS_CBOR_TYPE_UINT : b0base == CBOR_MT_NEGINT ? AWS_CBOR_TYPE_NEGINT
+         : b0base == CBOR_MT_BYTES ? AWS_CBOR_TYPE_BYTES : b0base == CBOR_MT_TEXT ? AWS_CBOR_TYPE_TEXT
+         : b0base == CBOR_MT_ARRAY ? AWS_CBOR_TYPE_ARRAY_START : b0base == CBOR_MT_MAP ? AWS_CBOR_TYPE_MAP_START : AWS_CBOR_TYPE_TAG;
+}
+void h_lemma_head(void) {
+    uint8_t b[9]; uint64_t v = nondet_u64(); uint8_t k = nondet_u8(); size_t n = nondet_size_t();
+    __CPROVER_assume(k < 7);
+    uint8_t b0base = (uint8_t)(k << 5);
+    /* the bytes every head-writing encoder function appends (ENS_HEAD, for every witness index) */
+    for (size_t j = 0; j < 9; ++j) { if (j < CBOR_HEAD_LEN(v)) __CPROVER_assume(b[j] == CBOR_HEAD_BYTE(b0base, v, j)); }
+    bool is_string = (b0base == CBOR_MT_BYTES || b0base == CBOR_MT_TEXT);
+    /* available input: exactly the item, or more */
+    __CPROVER_assume(n >= CBOR_HEAD_LEN(v) && (!is_string || v <= n - CBOR_HEAD_LEN(v)));
+    __CPROVER_assert(CBOR_HEAD_LEN(v) == (v < 24 ? 1 : v <= 0xFF ? 2 : v <= 0xFFFF ? 3 : v <= 0xFFFFFFFFull ? 5 : 9), "shortest head: 1/2/3/5/9 bytes at the RFC 8949 boundaries");
+    __CPROVER_assert(CBOR_IN_OK(b, n), "reader accepts the head and finds the element complete");
+    __CPROVER_assert(CBOR_IN_TYPE(b) == c10_type_of_base(b0base), "same item type");
+    __CPROVER_assert(CBOR_IN_ARG(b) == v, "same argument (value / length / count / tag)");
+    __CPROVER_assert(CBOR_IN_HEADLEN(b) == CBOR_HEAD_LEN(v), "reader's head length = bytes written");
+    __CPROVER_assert(CBOR_IN_ELEMLEN(b) == CBOR_HEAD_LEN(v) + (is_string ? v : 0), "consumes exactly head (+ payload of a string)");
+    /* one byte less than the item is never accepted: the item is not decodable from a proper prefix */
+    __CPROVER_assert(!CBOR_IN_OK(b, CBOR_IN_ELEMLEN(b) - 1), "a truncated item is refused");
+    if (v < 24) CANARY("embedded"); else if (v <= 0xFF) CANARY("1 byte"); else if (v <= 0xFFFF) CANARY("2 bytes"); else if (v <= 0xFFFFFFFFull) CANARY("4 bytes"); else CANARY("8 bytes");
+}
+void h_lemma_fixed(void) {
+    uint8_t b[9]; bool dbl = (nondet_int() != 0); uint64_t bits = nondet_u64(); size_t n = nondet_size_t();
+    if (!dbl) bits &= 0xFFFFFFFFull;
+    size_t w = dbl ? 8 : 4;
+    for (size_t j = 0; j < 9; ++j) { if (j < 1 + w) __CPROVER_assume(b[j] == CBOR_FIXED_BYTE(dbl ? 0xFB : 0xFA, w, bits, j)); }
+    __CPROVER_assume(n >= 1 + w);
+    __CPROVER_assert(CBOR_IN_OK(b, n) && CBOR_IN_TYPE(b) == AWS_CBOR_TYPE_FLOAT, "float accepted");
+    __CPROVER_assert(CBOR_IN_AI(b) == (dbl ? 27 : 26) && CBOR_IN_ARG(b) == bits, "same bit pattern, same width");
+    __CPROVER_assert(CBOR_IN_ELEMLEN(b) == 1 + w && !CBOR_IN_OK(b, w), "consumes exactly 5 / 9 bytes");
+    if (dbl) CANARY("double"); else CANARY("single");
+}
+void h_lemma_onebyte(void) {
+    uint8_t b[1]; b[0] = nondet_u8(); size_t n = nondet_size_t(); __CPROVER_assume(n >= 1);
+    __CPROVER_assume(b[0] == 0xF4 || b[0] == 0xF5 || b[0] == 0xF6 || b[0] == 0xF7 || b[0] == 0xFF || b[0] == 0x5F || b[0] == 0x7F || b[0] == 0x9F || b[0] == 0xBF);
+    __CPROVER_assert(CBOR_IN_OK(b, n) && CBOR_IN_ELEMLEN(b) == 1, "accepted, one byte");
+    __CPROVER_assert(CBOR_IN_TYPE(b) == (b[0] == 0xF4 || b[0] == 0xF5 ? AWS_CBOR_TYPE_BOOL : b[0] == 0xF6 ? AWS_CBOR_TYPE_NULL : b[0] == 0xF7 ? AWS_CBOR_TYPE_UNDEFINED
+                     : b[0] == 0xFF ? AWS_CBOR_TYPE_BREAK : b[0] == 0x5F ? AWS_CBOR_TYPE_INDEF_BYTES_START : b[0] == 0x7F ? AWS_CBOR_TYPE_INDEF_TEXT_START
+                     : b[0] == 0x9F ? AWS_CBOR_TYPE_INDEF_ARRAY_START : AWS_CBOR_TYPE_INDEF_MAP_START), "same item type");
+    __CPROVER_assert(CBOR_IN_TYPE(b) != AWS_CBOR_TYPE_BOOL || (CBOR_IN_AI(b) == 21) == (b[0] == 0xF5), "same boolean");
+    CANARY("reached");
+}
+/* numeric value of what aws_cbor_encoder_write_float's contract says is written, as the decoder contracts read it */
+void h_lemma_float_value(void) {
+    double v = nondet_double();
+    if (FL_INT(v)) {
+        uint64_t arg = FL_INT_ARG(v);
+        if (FL_I64(v) >= 0) __CPROVER_assert((double)arg == v, "UINT: exact");
+        else __CPROVER_assert(arg <= (uint64_t)INT64_MAX && (double)(-1 - (int64_t)arg) == v, "NEGINT: -1 - n is exact");
+        CANARY("integer");
+    } else if (FL_SINGLE(v)) {
+        double d = (double)BITS_F32(F32_BITS((float)v)); /* what pop_next_float_val returns for a single (DEC_F64_IN) */
+        __CPROVER_assert(__CPROVER_isnand(v) ? __CPROVER_isnand(d) : d == v, "SINGLE: widening the written single gives the value back (NaN stays NaN)");
+        CANARY("single");
+    } else {
+        __CPROVER_assert(FL_DOUBLE(v) && __CPROVER_isfinited(v), "third regime");
+        __CPROVER_assert(BITS_F64(F64_BITS(v)) == v, "DOUBLE: bit-exact");
+        __CPROVER_assert((double)(float)v != v, "a double is used only when the single would lose");
+        __CPROVER_assert(!(FL_IN_I64(v) && (double)(int64_t)v == v), "and only when it is not an integer in the int64 range");
+        CANARY("double");
+    }
+}
+
+/* ------------------------------------------------------------------ direct round trips through the REAL code on both sides
+ * (plain harness units: real aws_cbor_encoder_write_*, real reserve (no growth needed: the buffer has room), real
+ * libcbor encoders, real cbor_stream_decode + callbacks with the real static callback table, real pop functions).
+ * The encoder starts empty; the decoder gets exactly the appended bytes.  A pop_next_X that succeeds has checked the
+ * item type itself (it fails with AWS_ERROR_CBOR_UNEXPECTED_TYPE otherwise), so the type needs no separate peek
+ * (a peek followed by a pop doubles the decoder paths and the run time). */
+#define RT_CAP 80
+struct c10_rt { uint8_t storage[RT_CAP]; struct aws_allocator alloc; struct aws_cbor_encoder enc; struct aws_cbor_decoder dec; };
+static void c10_rt_begin(struct c10_rt *rt, size_t cap) {
+    rt->enc.allocator = &rt->alloc;
+    rt->enc.encoded_buf = aws_byte_buf_from_empty_array(rt->storage, cap); /* an arbitrary append position is covered by the contract units */
+    rt->enc.encoded_buf.allocator = &rt->alloc;
+}
+/* hand exactly the bytes appended since c10_rt_begin to a new decoder */
+static size_t c10_rt_decode(struct c10_rt *rt) {
+    size_t n = rt->enc.encoded_buf.len;
+    __CPROVER_assert(n <= rt->enc.encoded_buf.capacity && rt->enc.encoded_buf.buffer == rt->storage, "appended in place");
+    memset(&rt->dec, 0, sizeof(rt->dec));
+    rt->dec.src = aws_byte_cursor_from_array(rt->storage, n);
+    return n;
+}
+#define RT_DONE(rt) __CPROVER_assert(aws_cbor_decoder_get_remaining_length(&(rt)->dec) == 0 && (rt)->dec.error_code == 0 && \
+                                     (rt)->dec.cached_context.type == AWS_CBOR_TYPE_UNKNOWN, "consumed exactly the encoded bytes")
+
+#define H_RT_U64(name, wr, pop) void h_rt_##name(void) { struct c10_rt rt; c10_rt_begin(&rt, 16); uint64_t v = nondet_u64(), out = 0; \
+    aws_cbor_encoder_write_##wr(&rt.enc, v); size_t n = c10_rt_decode(&rt); \
+    __CPROVER_assert(n == (v < 24 ? 1 : v <= 0xFF ? 2 : v <= 0xFFFF ? 3 : v <= 0xFFFFFFFFull ? 5 : 9), "shortest head"); \
+    __CPROVER_assert(aws_cbor_decoder_pop_next_##pop(&rt.dec, &out) == AWS_OP_SUCCESS && out == v, "same item type and value"); RT_DONE(&rt); \
+    if (v < 24) CANARY("embedded"); else if (v > 0xFFFFFFFFull) CANARY("8 bytes"); else CANARY("1/2/4 bytes"); }
+H_RT_U64(uint, uint, unsigned_int_val)
+H_RT_U64(negint, negint, negative_int_val)
+H_RT_U64(tag, tag, tag_val)
+H_RT_U64(array_start, array_start, array_start)
+H_RT_U64(map_start, map_start, map_start)
+
+void h_rt_simple(void) {
+    struct c10_rt rt; c10_rt_begin(&rt, 16); uint8_t which = nondet_u8(); bool bv = (nondet_int() != 0), bout = !bv; enum aws_cbor_type expect, got = AWS_CBOR_TYPE_UNKNOWN;
+    switch (which) {
+        case 0: aws_cbor_encoder_write_bool(&rt.enc, bv); expect = AWS_CBOR_TYPE_BOOL; break;
+        case 1: aws_cbor_encoder_write_null(&rt.enc); expect = AWS_CBOR_TYPE_NULL; break;
+        case 2: aws_cbor_encoder_write_undefined(&rt.enc); expect = AWS_CBOR_TYPE_UNDEFINED; break;
+        case 3: aws_cbor_encoder_write_break(&rt.enc); expect = AWS_CBOR_TYPE_BREAK; break;
+        case 4: aws_cbor_encoder_write_indef_bytes_start(&rt.enc); expect = AWS_CBOR_TYPE_INDEF_BYTES_START; break;
+        case 5: aws_cbor_encoder_write_indef_text_start(&rt.enc); expect = AWS_CBOR_TYPE_INDEF_TEXT_START; break;
+        case 6: aws_cbor_encoder_write_indef_array_start(&rt.enc); expect = AWS_CBOR_TYPE_INDEF_ARRAY_START; break;
+        default: aws_cbor_encoder_write_indef_map_start(&rt.enc); expect = AWS_CBOR_TYPE_INDEF_MAP_START; break;
+    }
+    size_t n = c10_rt_decode(&rt);
+    __CPROVER_assert(n == 1, "one byte");
+    if (which == 0) { __CPROVER_assert(aws_cbor_decoder_pop_next_boolean_val(&rt.dec, &bout) == AWS_OP_SUCCESS && bout == bv, "same boolean"); RT_DONE(&rt); CANARY("bool"); }
+    else { /* markers carry no value: peek decodes the element into the cache, which must leave nothing in the input */
+        __CPROVER_assert(aws_cbor_decoder_peek_type(&rt.dec, &got) == AWS_OP_SUCCESS && got == expect, "decodes to the same item type");
+        __CPROVER_assert(aws_cbor_decoder_get_remaining_length(&rt.dec) == 0 && rt.dec.error_code == 0, "consumed exactly the encoded byte");
+        CANARY("marker"); }
+}
+/* two items in a row: the second starts where the first ended, on both sides */
+void h_rt_sequence(void) {
+    struct c10_rt rt; c10_rt_begin(&rt, 24); uint64_t v1 = nondet_u64(), v2 = nondet_u64(), o1 = 0, o2 = 0;
+    aws_cbor_encoder_write_negint(&rt.enc, v1); aws_cbor_encoder_write_uint(&rt.enc, v2);
+    c10_rt_decode(&rt);
+    __CPROVER_assert(aws_cbor_decoder_pop_next_negative_int_val(&rt.dec, &o1) == AWS_OP_SUCCESS && o1 == v1, "first item");
+    __CPROVER_assert(aws_cbor_decoder_pop_next_unsigned_int_val(&rt.dec, &o2) == AWS_OP_SUCCESS && o2 == v2, "second item");
+    RT_DONE(&rt); CANARY("reached");
+}
+/* strings: payload of up to RT_STR_MAX bytes (both the embedded and the one-byte length head); content by witness */
+#define RT_STR_MAX 40
+#define H_RT_STR(name) void h_rt_##name(void) { struct c10_rt rt; uint8_t payload[RT_STR_MAX]; struct aws_byte_cursor from, out; \
+    size_t len = nondet_size_t(); __CPROVER_assume(len <= RT_STR_MAX); c10_rt_begin(&rt, RT_CAP); \
+    from = aws_byte_cursor_from_array(payload, len); \
+    aws_cbor_encoder_write_##name(&rt.enc, from); size_t n = c10_rt_decode(&rt); \
+    __CPROVER_assert(n == (len < 24 ? 1 : 2) + len, "shortest head + payload"); \
+    __CPROVER_assert(aws_cbor_decoder_pop_next_##name##_val(&rt.dec, &out) == AWS_OP_SUCCESS && out.len == len, "same item type and length"); \
+    size_t j = nondet_size_t(); if (j < len) __CPROVER_assert(out.ptr[j] == payload[j], "same content (arbitrary index)"); \
+    RT_DONE(&rt); if (len == 0) CANARY("empty"); else if (len < 24) CANARY("short"); else CANARY("one-byte length"); }
+H_RT_STR(bytes)
+H_RT_STR(text)
+
+/* floats through the real code: the regimes of write_float and the explicit single.  The harness derives the expected
+ * item kind from the statement (integer iff integral inside the int64 range; single iff that loses nothing). */
+#define RT_POP_FLOAT(rt, v, n, expect_n) do { double d_ = 0; \
+    __CPROVER_assert(aws_cbor_decoder_pop_next_float_val(&(rt)->dec, &d_) == AWS_OP_SUCCESS && (__CPROVER_isnand(v) ? __CPROVER_isnand(d_) : d_ == (v)), "float item, same numeric value"); \
+    __CPROVER_assert((n) == (expect_n), "smallest form that loses nothing (5 = single, 9 = double; never a half)"); } while (0)
+void h_rt_float_nonfinite(void) { struct c10_rt rt; c10_rt_begin(&rt, 16); double v = nondet_double(); __CPROVER_assume(!__CPROVER_isfinited(v));
+    aws_cbor_encoder_write_float(&rt.enc, v); size_t n = c10_rt_decode(&rt); RT_POP_FLOAT(&rt, v, n, 5); RT_DONE(&rt);
+    if (__CPROVER_isnand(v)) CANARY("NaN"); else CANARY("infinity"); }
+void h_rt_float_int(void) { struct c10_rt rt; c10_rt_begin(&rt, 16); double v = nondet_double(); uint64_t u = 0;
+    __CPROVER_assume(__CPROVER_isfinited(v) && v >= -TWO63 && v < TWO63 && (double)(int64_t)v == v);
+    aws_cbor_encoder_write_float(&rt.enc, v); size_t n = c10_rt_decode(&rt);
+    if (v >= 0) { __CPROVER_assert(aws_cbor_decoder_pop_next_unsigned_int_val(&rt.dec, &u) == AWS_OP_SUCCESS && (double)u == v, "stored as unsigned integer, exact"); CANARY("non-negative"); }
+    else { __CPROVER_assert(aws_cbor_decoder_pop_next_negative_int_val(&rt.dec, &u) == AWS_OP_SUCCESS && u <= (uint64_t)INT64_MAX && (double)(-1 - (int64_t)u) == v, "stored as negative integer, exact"); CANARY("negative"); }
+    __CPROVER_assert(n == (u < 24 ? 1 : u <= 0xFF ? 2 : u <= 0xFFFF ? 3 : u <= 0xFFFFFFFFull ? 5 : 9), "shortest head");
+    RT_DONE(&rt); }
+void h_rt_float_single(void) { struct c10_rt rt; c10_rt_begin(&rt, 16); double v = nondet_double();
+    __CPROVER_assume(__CPROVER_isfinited(v) && !(v >= -TWO63 && v < TWO63 && (double)(int64_t)v == v) && (double)(float)v == v);
+    aws_cbor_encoder_write_float(&rt.enc, v); size_t n = c10_rt_decode(&rt); RT_POP_FLOAT(&rt, v, n, 5); RT_DONE(&rt);
+    if (v == TWO63) CANARY("2^63"); else CANARY("other single"); }
+void h_rt_float_double(void) { struct c10_rt rt; c10_rt_begin(&rt, 16); double v = nondet_double();
+    __CPROVER_assume(__CPROVER_isfinited(v) && !(v >= -TWO63 && v < TWO63 && (double)(int64_t)v == v) && (double)(float)v != v);
+    aws_cbor_encoder_write_float(&rt.enc, v); size_t n = c10_rt_decode(&rt); RT_POP_FLOAT(&rt, v, n, 9); RT_DONE(&rt);
+    CANARY("reached"); }
+void h_rt_single_float(void) { struct c10_rt rt; c10_rt_begin(&rt, 16); float f = nondet_float(); double d = 0;
+    aws_cbor_encoder_write_single_float(&rt.enc, f); size_t n = c10_rt_decode(&rt);
+    __CPROVER_assert(n == 5, "five bytes");
+    __CPROVER_assert(aws_cbor_decoder_pop_next_float_val(&rt.dec, &d) == 0 && (__CPROVER_isnanf(f) ? __CPROVER_isnand(d) : d == (double)f), "float item, same value");
+    RT_DONE(&rt); CANARY("reached"); }
+
+/* ------------------------------------------------------------------ construction / observation */
+void h_encoder_new(void) { struct aws_allocator *a; C10_RESET(); struct aws_cbor_encoder *e = aws_cbor_encoder_new(a); if (e) CANARY("created"); }
+void h_decoder_new(void) { struct aws_allocator *a; struct aws_byte_cursor src; C10_RESET(); g_j = nondet_size_t(); struct aws_cbor_decoder *d = aws_cbor_decoder_new(a, src); if (d) CANARY("created"); }
+void h_get_encoded_data(void) { struct aws_cbor_encoder *encoder; C10_RESET(); struct aws_byte_cursor c = aws_cbor_encoder_get_encoded_data(encoder); if (c.len) CANARY("some data"); else CANARY("empty"); }
+void h_encoder_reset(void) { struct aws_cbor_encoder *encoder; C10_RESET(); aws_cbor_encoder_reset(encoder); CANARY("returned"); }
